@@ -6,6 +6,7 @@ import (
 	"fmt"
 	"strings"
 
+	"github.com/llir/llvm/asm"
 	"github.com/llir/llvm/ir"
 	"github.com/llir/llvm/ir/constant"
 	"github.com/llir/llvm/ir/types"
@@ -315,7 +316,74 @@ func fieldHistory(kind string, seq []int, observers bool) string {
 	}, nil)
 }
 
+// twiceScenario: a constructed module that must print the same text twice in a row (also with a function printed on its own in between), and whose
+// text the parser accepts
+func twiceScenario(name string) *ir.Module {
+	m := ir.NewModule()
+	switch name {
+	case "fwd-blockaddress-no-globals", "fwd-blockaddress-with-global":
+		// an EARLIER function uses the address of an unnamed block of a LATER function (behind an unnamed parameter and the entry block); no global
+		// variable, alias or ifunc in the first variant
+		user := m.NewFunc("user", types.I8Ptr)
+		g := m.NewFunc("g", types.Void, ir.NewParam("", types.I32))
+		b0, b1, b2 := g.NewBlock(""), g.NewBlock(""), g.NewBlock("")
+		b0.NewBr(b1)
+		b1.NewBr(b2)
+		b2.NewRet(nil)
+		ub := user.NewBlock("entry")
+		sel := ub.NewSelect(constant.True, constant.NewBlockAddress(g, b1), constant.NewBlockAddress(g, b2))
+		ub.NewRet(sel)
+		if name == "fwd-blockaddress-with-global" {
+			m.NewGlobalDef("tbl", constant.NewBlockAddress(g, b2))
+		}
+	case "float-kinds":
+		for i, lit := range []struct {
+			t *types.FloatType
+			s string
+		}{{types.Half, "0xH3C00"}, {types.Float, "1.5"}, {types.Double, "0x3FF0000000000001"}, {types.X86_FP80, "0xK3FFF8000000000000000"},
+			{types.FP128, "0xL00000000000000003FFF000000000000"}, {types.PPC_FP128, "0xM3FF00000000000000000000000000000"},
+			{types.PPC_FP128, "0xM3FF00000000000003C90000000000000"}, {types.PPC_FP128, "0xMC0000000000000000000000000000000"}} {
+			c, err := constant.NewFloatFromString(lit.t, lit.s)
+			if err != nil {
+				panic(err)
+			}
+			m.NewGlobalDef(fmt.Sprintf("f%d", i), c)
+		}
+	default:
+		return nil
+	}
+	return m
+}
+
 func init() {
+	reg("hist.twice.list", func(a []string) string { return "fwd-blockaddress-no-globals,fwd-blockaddress-with-global,float-kinds" })
+	reg("hist.twice", func(a []string) string {
+		m := twiceScenario(a[0])
+		if m == nil {
+			return "FAIL unknown-scenario"
+		}
+		s1 := m.String()
+		for _, f := range m.Funcs {
+			_ = f.LLString()
+		}
+		s2 := m.String()
+		s3 := m.String()
+		if s1 != s2 || s2 != s3 {
+			return "FAIL printed-twice-differs " + firstDiff(s1, s2+s3)
+		}
+		// an unobserved twin prints the same text
+		if t := twiceScenario(a[0]).String(); t != s1 {
+			return "FAIL twin-differs " + firstDiff(s1, t)
+		}
+		m2, err := asm.ParseString("x.ll", s1)
+		if err != nil {
+			return "FAIL reparse-error"
+		}
+		if s4 := m2.String(); s4 != s1 {
+			return "FAIL reparse-differs " + firstDiff(s1, s4)
+		}
+		return "ok"
+	})
 	// C14 oracle on cached-type state: the same construction/edit history prints the same text with and without interleaved pure observers
 	reg("hist.fobs", func(a []string) string {
 		seq := []int{0}
